@@ -102,3 +102,51 @@ Proof.
   rewrite T, rev_app_distr.
   destruct (h_setup_test hk), (h_teardown_test hk); simpl; rewrite <- ?app_assoc; reflexivity.
 Qed.
+
+(* ---------------- session scope ---------------- *)
+(* a fixture name some suite of the run needs: used in a suite of the forest (recursively: get_fixtures_used_in_suite of
+   every nested suite, with the inherited disabled flag) *)
+Definition needed_in_run (suites : list suite) (force : bool) (f : name) : Prop :=
+  exists s, In s suites /\ In f (get_fixtures_used_in_suite_recursively false s force).
+
+Theorem session_schedule_is_what_is_needed : forall reg suites force, registry_ok reg ->
+  (forall f, needed_in_run suites force f -> reg_mem reg f = true) ->
+  exists fxs, get_fixtures_scheduled_for_session reg suites force = Ok fxs /\
+    NoDup (map fx_name fxs) /\
+    (forall y, In y (map fx_name fxs) <->
+       (exists f, needed_in_run suites force f /\ clos_refl_trans name (Edge (reg_find reg)) f y) /\ scope_of reg y ScSession) /\
+    (forall d1 fx t1, fxs = d1 ++ fx :: t1 ->
+       forall y, In y (fparams fx) -> scope_of reg y ScSession -> In y (map fx_name d1)).
+Proof.
+  intros reg suites force Hok Hreg.
+  destruct (level_spec reg (fixtures_used_in_suites suites force) ScSession Hok) as [fxs [Hs [Hnd [Hiff Hord]]]].
+  { intros f Hf; apply Hreg; apply used_suites_In; exact Hf. }
+  exists fxs; split; [exact Hs|split; [exact Hnd|split]].
+  - intros y; rewrite Hiff; unfold reach; split.
+    + intros [[f [Hf Hp]] Hsc]; split; [exists f; split; [apply used_suites_In; exact Hf|exact Hp]|exact Hsc].
+    + intros [[f [Hf Hp]] Hsc]; split; [exists f; split; [apply used_suites_In; exact Hf|exact Hp]|exact Hsc].
+  - intros d1 fx t1 E; destruct (Hord d1 fx t1 E) as [_ [_ H]]; exact H.
+Qed.
+
+(* every fixture the run needs is used by some suite of the forest, itself or through one of its tests: nothing else *)
+Theorem needed_in_run_is_used_somewhere : forall suites force f, needed_in_run suites force f ->
+  exists top s', In top suites /\ In s' (flatten_suite top) /\
+    (In f (suite_fixtures s') \/ exists t, In t (su_tests s') /\ In f (test_fixtures t)).
+Proof.
+  intros suites force f [s [Hs Hf]].
+  destruct (used_rec_upper s false force f Hf) as [s' [Hs' H]].
+  exists s, s'; auto.
+Qed.
+
+Theorem session_setup_task_enters_the_schedule : forall reg force suites fxs env l st en isst d,
+  get_fixtures_scheduled_for_session reg suites force = Ok fxs ->
+  to_res (setup_phase env l st en isst d (session_pairs reg force suites)) = TkSuccess ->
+  begins (to_main (setup_phase env l st en isst d (session_pairs reg force suites))) =
+    map (fun fx => OFxSetup (fx_name fx)) fxs.
+Proof.
+  intros reg force suites fxs env l st en isst d Hs Hr.
+  destruct (setup_phase_order env l st en isst d (session_pairs reg force suites)) as [done [rest [E [B [_ R]]]]].
+  { rewrite Hr; discriminate. }
+  apply R in Hr; subst rest; rewrite app_nil_r in E, B; subst done; rewrite B.
+  unfold session_pairs; rewrite Hs; apply setups_of_fixture_pairs.
+Qed.
